@@ -114,7 +114,7 @@ def expected_names(d, name, v):
 
 
 def message_names(msgs):
-    return sorted(m["message"].replace("ERROR: Invalid value in ", "") for m in msgs)
+    return sorted(m["message"].split()[-1].upper() for m in msgs)   # the message names the keyword / object: its last word
 
 
 # ------------------------------------------------------------------ exhaustive product
